@@ -163,8 +163,8 @@ def run(ctx: Ctx) -> None:
     boost = 1
     if g.PINNED and changed:
         ctx.note("source_changed: " + ", ".join(changed[:12]))
-        ctx.extra["source_changed"] = changed
-        boost = 3
+        ctx.extra["modelled_functions_changed"] = changed
+        boost = 3 if ctx.boost == 1 else 1     # (./check already boosts when the anchored files changed)
     n = ctx.budget(quick=1200, thorough=12000) * boost
     cases, impl_outs = [], []
     for i, c in enumerate(load_corpus()):
@@ -190,6 +190,28 @@ def run(ctx: Ctx) -> None:
                 count += 1
         ctx.extra["exhaustive_trees_le_6_nodes"] = count
     ctx.compare("Graph", [driver_case(c) for c in cases], impl_outs, what="formula generators: signed multisets, flags, fallbacks, regimes")
+    probe_grid_meter_load(ctx)
+
+
+def probe_grid_meter_load(ctx: Ctx) -> None:
+    """Evidence only (outside the quantifier as read here): a SINGLE grid meter whose successors are all of one
+    device type is "dedicated" by shape but not by the code's `is_*_meter` (which exclude the grid meter).  If such a
+    meter carried unmetered load, which formulas would be off?  Recorded, never reported as a violation."""
+    res = {}
+    for kind in g.DEVICE_KINDS:
+        leaf = {"k": kind, "id": 3, "bats": [4]} if kind == "batInv" else {"k": kind, "id": 3}
+        case = {"grid": 1, "succ": [{"k": "meter", "id": 2, "c": [leaf]}], "bat": None, "pv": None, "ev": None}
+        out, engines = g.run_impl(case)
+        power, load = {3: Fraction(5)}, {2: Fraction(2)}
+        env = g.readings(case, power, load)
+        want = totals(case, power, load)
+        off = [n for n in CLAUSES if n in engines and g.evaluate(engines[n], env) != want[n]]
+        for n in engines:
+            for t in out[n]["terms"]:
+                if t[3] and sum((env[i] for i, _ in t[3]), Fraction(0)) != env[t[1]]:
+                    off.append(f"{n}-fallback")
+        res[kind] = sorted(set(off))
+    ctx.extra["probe_load_at_single_grid_meter_with_one_device_type"] = res
 
 
 def replay(ctx: Ctx, data: dict) -> None:
